@@ -64,6 +64,11 @@ def clause_i(ctx, fx):
     r = common.RelabelCtx(ctx, "C01.i")
     c05.p4(r, fx, I)
     c05.p5(r, fx, I)
+    # ..and every member / element of the claims reaches the payload (visible or as a disclosure): nothing is passed over by the builders
+    r2 = common.RelabelCtx(ctx, "C01.i", keep=("child-accounted",))
+    for B in (I.obj_builder, I.list_builder):
+        if B is not None:
+            c05.p1_p2(r2, fx, I, B)
 
 
 def clause_h(ctx, fx):
@@ -124,6 +129,31 @@ def clause_a(ctx, fx, U):
                 else:
                     ctx.finding("C01.a", fn, "filters:%s" % lit, "a payload member named %r can be copied into the verified claims: the marker survives in the output" % lit, line=line)
     ctx.floor("C01.a", "member-copy inserts", ncopy, 1)
+    # ..and every other member is copied: an iteration of the member walk ends in the copy insert unless the key is one of the markers
+    for fn in set(f for (f, b, n) in U.copy_sinks):
+        inserts = [b for (f, b, n) in U.copy_sinks if f is fn]
+        for lp in next_loops(fn):
+            if "serde_json::map" not in lp.iter_ty:
+                continue
+            body = set()
+            for d_ in lp.body_entries:
+                body |= cfg.reachable(fn, [d_], removed_blocks=[lp.bb])
+            if not any(b in body for b in inserts):
+                continue
+
+            def is_key2(x, lp=lp):
+                q = item_path(x, lp.node)
+                return q is not None and (q == [0] or q == [])
+            marker_edges = []
+            for lit in MARKERS:
+                for (sb, tgt) in neq_const_edges(fn, is_key2, lit):
+                    marker_edges.extend((sb, o) for o in fn.succs(sb) if o != tgt)
+            skipped = any(lp.bb in cfg.reachable(fn, [d_], removed_blocks=inserts, removed_edges=marker_edges) for d_ in lp.body_entries)
+            if skipped:
+                ctx.finding("C01.a", fn, "member-accounted", "an iteration of the member walk can end without copying the member although its name is not a marker: a visible claim "
+                            "(e.g. one whose value is null / empty) is silently dropped from the verified claims", line=fn.term(lp.bb).get("line"))
+            else:
+                ctx.ok("C01.a", fn, "member-accounted", "every member whose name is not a marker is copied (or the walk ends in an Err)", line=fn.term(lp.bb).get("line"))
     # array walker: whole-element push only when the element is not a placeholder
     npush = 0
     for (fn, b, n) in U.arr_pushes:
@@ -158,6 +188,27 @@ def clause_a(ctx, fx, U):
             else:
                 ctx.finding("C01.a", fn, "placeholder-not-copied", "a `{\"...\": digest}` placeholder can be pushed to the output array unprocessed", line=line)
     ctx.floor("C01.a", "whole-element pushes", npush, 1)
+    # ..and every element is accounted for: an iteration of the array walk ends in a push, in a digest lookup (whose "no disclosure" outcome
+    # legitimately drops a placeholder), or in an Err — never by silently passing over a plain element (a `null`, an empty string ..)
+    fns = []
+    for (fn, b, n) in U.arr_pushes:
+        if fn not in fns:
+            fns.append(fn)
+    for fn in fns:
+        fv = vals(fn)
+        pushes = [b for (f, b, n) in U.arr_pushes if f is fn]
+        look = [b for (f, b, n) in U.lookups if f is fn]
+        elem_fns = set(f.name for (f, e, inner, l) in U.elem_sinks)
+        look += [b for b, t in fn.calls() if t.get("resolved") in elem_fns]
+        for lp in next_loops(fn):
+            if not any(b in cfg.reachable(fn, lp.body_entries, removed_blocks=[lp.bb]) for b in pushes):
+                continue
+            skipped = any(lp.bb in cfg.reachable(fn, [d_], removed_blocks=pushes + look) for d_ in lp.body_entries)
+            if skipped:
+                ctx.finding("C01.a", fn, "element-accounted", "an iteration of the array walk can end without a push and without a digest lookup: a plain element (e.g. `null`) is silently dropped "
+                            "from the verified claims", line=fn.term(lp.bb).get("line"))
+            else:
+                ctx.ok("C01.a", fn, "element-accounted", "every iteration of the array walk ends in a push, a digest lookup or an Err", line=fn.term(lp.bb).get("line"))
 
 
 def innermost_conditions(fn, bb):
